@@ -38,6 +38,7 @@ class FnContract:
     yields: dict[int, list[str]] = field(default_factory=dict)  # generator cut points
     ghost_post: list[str] = field(default_factory=list)
     gen: dict | None = None           # generator (coroutine) verification spec
+    nl: str = "uf"                     # "native": products/quotients of symbols are interpreted (small arithmetic-only functions)
     native_ensures: list = field(default_factory=list)   # (label, expr) clauses only evaluated by the run-time monitors (bounded), never counted as proved
     variants: dict = field(default_factory=dict)   # callee qname -> contract variant key ("<qname>#<variant>") to use in this proof
     weak_calls: list[str] = field(default_factory=list)  # callees replaced by 'may do anything' (havoc-all) in this proof
